@@ -1,5 +1,6 @@
 """C09 — JSONPath syntax: documented forms parse as intended, printing is faithful, nothing panics (structural clauses)."""
 import report
+from rules import textparser
 from rules import parsers, safety, recursion
 
 ROOTS = ['jsonpath::parser::parse_json_path']
@@ -29,4 +30,5 @@ def check(ctx, run):
     parsers.r09_8(ctx, run, 'R09.8', ('jsonpath::parser::',), 15)
     recursion.rrec(ctx, run, 'R09.9', ROOTS, {'path-text'}, 'recursion of the JSONPath grammar on nesting depth', floor=1)
     recursion.left_deep(ctx, run, 'R09.10', ('jsonpath::parser::expr_and', 'jsonpath::parser::expr_or'), floor=2)
+    textparser.r02_12(ctx, run, rule='R09.6/R02.12')
     return report.finish(run, level='other', explanation=EXPLANATION, assumptions=["nom 7 contracts: separated_list1 yields >= 1 element; complete parsers never return Incomplete", "A3"])
